@@ -653,6 +653,13 @@ def _ev_subscript_rec(self, st, node):
         if k is None:
             raise Unsupported("record read under a computed key")
         full = "%s[%s]" % (st.env[node.value.id].py["name"], k)
+        if full not in st.env and full in self.c.locals and node.value.id in list(self.c.params) + list(self.c.free):
+            # a declared field of a record that comes from outside: an arbitrary value of the declared type
+            v = self.const(full.replace("[", "_").replace("]", ""), _engine.parse_type(self.c.locals[full]))
+            for w in self.wf(v):
+                st.hyps.append(w)
+            st.env[full] = v
+            st.old.setdefault(full, v)
         if full not in st.env:
             raise Unsupported("record field %s is not tracked" % full)
         return st.env[full]
@@ -743,6 +750,17 @@ def b_descendants(self, ex, st, node):
     return SV(TSeq(ELEM), ex.uf("xml_iter3", ELEM.sort(), TSeq(ELEM).sort())(e.z))
 
 
+def b_xml_iter(self, ex, st, node):
+    """spec: xml_iter(elem, 'query') = list(elem.iter('query')), the matching descendants in document order"""
+    import hashlib as _hl
+    e = ex.ev(st, node.args[0])
+    q = node.args[1].value
+    r = SV(TSeq(ELEM), ex.uf("xml_iter_" + _hl.md5(q.encode()).hexdigest()[:8], ELEM.sort(), TSeq(ELEM).sort())(e.z))
+    ex.assume(st, r.t.len(r.z) >= 0)
+    return r
+
+
+Lib.b_xml_iter = b_xml_iter
 Lib.b_attr = b_attr
 Lib.b_first_token = b_first_token
 Lib.b_tag_has = b_tag_has
@@ -759,8 +777,13 @@ def _elem_get(ex, st, base, node, basenode):
 @method("abs:Elem", "iter", stmt="lxml: element.iter(*tags) yields the matching descendants in document order")
 def _elem_iter(ex, st, base, node, basenode):
     # only the three-query form of _parse_psm is given a named result (xml_iter3); other calls are opaque lists
-    key = "xml_iter3" if (len(node.args) == 1 and isinstance(node.args[0], ast.Starred)) else \
-        "xml_iter_" + str(abs(hash(ast.unparse(node))) % 100000)
+    import hashlib as _hl
+    if len(node.args) == 1 and isinstance(node.args[0], ast.Starred):
+        key = "xml_iter3"
+    elif len(node.args) == 1 and isinstance(node.args[0], ast.Constant) and isinstance(node.args[0].value, str):
+        key = "xml_iter_" + _hl.md5(node.args[0].value.encode()).hexdigest()[:8]     # = spec xml_iter(e, 'query')
+    else:
+        key = "xml_iter_" + _hl.md5(ast.unparse(node).encode()).hexdigest()[:8]
     r = SV(TSeq(ELEM), ex.uf(key, ELEM.sort(), TSeq(ELEM).sort())(base.z))
     ex.assume(st, r.t.len(r.z) >= 0)
     return r
